@@ -131,7 +131,7 @@ def plan_spline_build(ctx, props, env, nrep_quick, nrep_thorough, tdom="W", extr
     execs = spline_build_execs(ctx, r, nrep_quick if ctx.quick() else nrep_thorough, tdom=tdom)
     if extra_execs:
         execs += extra_execs(ctx, r)
-    batches = balanced(execs, 32 if ctx.quick() else 96)
+    batches = balanced(execs, 32 if ctx.quick() else 96) + regress_batch("spline", env)
     ctx.family, ctx.tracespec, ctx.env_flags = "spline", "TraceSpline", env
     ctx.samples = sample_of(batches)
     replay_and_validate(ctx, exe, batches, "TraceSpline", env)
